@@ -1,11 +1,21 @@
 //! zksim — deterministic simulation with fault injection for libzkchannels-crypto.
 //! See /verif/DESIGN.md.
 
+mod alloc;
 mod atoms;
 mod driver;
+mod harvest;
+mod mctx;
+mod mutate;
+mod plangen;
 mod props;
 mod refc;
 mod rng;
+mod types;
+mod world;
+
+#[global_allocator]
+static GLOBAL: alloc::TrackAlloc = alloc::TrackAlloc;
 
 use driver::{Prop, Tier};
 
@@ -14,6 +24,14 @@ pub const REAL_VS_STUB: &str = "real: every zkabacus-crypto / zkchannels-crypto 
 /// Abort the current case with a harness error (exit 2 at top level; never a VIOLATION).
 pub fn harness_error(msg: &str) -> ! {
     panic!("HARNESS: {}", msg);
+}
+
+pub fn hash_str(s: &str) -> u64 {
+    s.bytes().fold(0xcbf29ce484222325u64, |a, b| (a ^ b as u64).wrapping_mul(0x100000001b3))
+}
+
+pub fn hash_bytes(s: &[u8]) -> u64 {
+    s.iter().fold(0xcbf29ce484222325u64, |a, b| (a ^ *b as u64).wrapping_mul(0x100000001b3))
 }
 
 fn all_props() -> Vec<Box<dyn Prop>> {
